@@ -31,15 +31,26 @@ namespace {
 
 const char *k_tmpl[] = {"harm_fixed", "harm_cmove", "walls_fixed", "linear_fixed", "meta_grid", "meta_nogrid", "histogram", "abf", "harm_kmove", "opes"};
 
-std::string combo_cv(Rng &r, int natoms, std::string const &name, double &width) {
+std::string combo_cv(Rng &r, int natoms, std::string const &name, double &width, std::string *alt = nullptr, std::string *modify = nullptr) {
   // two distance components with different coefficients
   std::vector<std::vector<int>> g = pick_groups(r, natoms, 4, 2);
   auto grp = [&](std::vector<int> const &v) { std::string s; for (int a : v) s += " " + std::to_string(a + 1); return s; };
   width = 0.5;
-  std::string c = "colvar {\n  name " + name + "\n  width 0.5\n";
-  c += "  distance {\n    name c0\n    componentCoeff " + num(r.uniform(0.5, 1.5)) + "\n    group1 { atomNumbers" + grp(g[0]) + " }\n    group2 { atomNumbers" + grp(g[1]) + " }\n  }\n";
-  c += "  distance {\n    name c1\n    componentCoeff " + num(r.uniform(-1.0, 1.0)) + "\n    group1 { atomNumbers" + grp(g[2]) + " }\n    group2 { atomNumbers" + grp(g[3]) + " }\n  }\n}\n";
-  return c;
+  double c0 = r.uniform(0.5, 1.5), c1 = r.uniform(-1.0, 1.0);
+  bool total_force = r.chance(0.4);
+  auto text = [&](double a, double b) {
+    std::string c = "colvar {\n  name " + name + "\n  width 0.5\n" + (total_force ? "  outputTotalForce on\n" : "");
+    c += "  distance {\n    name c0\n    componentCoeff " + num(a) + "\n    group1 { atomNumbers" + grp(g[0]) + " }\n    group2 { atomNumbers" + grp(g[1]) + " }\n  }\n";
+    c += "  distance {\n    name c1\n    componentCoeff " + num(b) + "\n    group1 { atomNumbers" + grp(g[2]) + " }\n    group2 { atomNumbers" + grp(g[3]) + " }\n  }\n}\n";
+    return c;
+  };
+  if (alt && modify && r.chance(0.4)) {
+    // the coefficients are changed through the script right after the definition; the other route defines them so from the start
+    double f0 = std::round(r.uniform(0.5, 2.5) * 100) / 100, f1 = std::round(r.uniform(-1.5, 1.5) * 100) / 100;
+    *alt = text(f0, f1);
+    *modify = "\"componentCoeff " + num(f0) + "\" \"componentCoeff " + num(f1) + "\"";
+  }
+  return text(c0, c1);
 }
 
 J gen(uint64_t seed, bool thorough) {
@@ -68,7 +79,8 @@ J gen(uint64_t seed, bool thorough) {
     LiveCv c; c.name = "v" + std::to_string(ncv++);
     J op = J::obj(); op["w"] = 0; op["op"] = "define"; op["name"] = c.name; op["what"] = "cv"; op["file"] = "def" + std::to_string(nfile++) + ".in";
     if (r.chance(0.3)) {
-      double w; op["config"] = combo_cv(r, ec.natoms, c.name, w); c.combo = true; op["ncomp"] = 2;
+      double w; std::string alt, mod; op["config"] = combo_cv(r, ec.natoms, c.name, w, &alt, &mod); c.combo = true; op["ncomp"] = 2;
+      if (!mod.empty()) { op["config_alt"] = alt; op["modify"] = mod; }
     } else {
       c.spec = make_cv(r, ec.natoms, kinds[r.below(5)], c.name);
       place_grid(c.spec, m, T, r, (int)r.range(4, 10), 1.4);
@@ -347,7 +359,7 @@ Outcome execute(J const &plan, bool alt_route, bool test) {
     cvm::clear_error();
     std::string res; int rc = COLVARS_OK;
     if (k == "define") {
-            std::string cfg = op.at("config").as_str();
+      std::string cfg = alt_route && op.has("config_alt") ? op.at("config_alt").as_str() : op.at("config").as_str();
       if (!alt_route) rc = e->run_script({"cv", "config", cfg}, &res);
       else { fs().put("/simfs/w0/" + op.at("file").as_str(), cfg); rc = e->run_script({"cv", "configfile", op.at("file").as_str()}, &res); }
       out.commands++; out.cmd_used[alt_route ? "configfile" : "config"]++;
@@ -360,6 +372,11 @@ Outcome execute(J const &plan, bool alt_route, bool test) {
         out.refused_definitions++; cvm::clear_error(); continue;
       }
       fresh_definition = true;
+      if (!alt_route && op.has("modify")) {
+        rc = e->run_script({"cv", "colvar", op.at("name").as_str(), "modifycvcs", op.at("modify").as_str()}, &res);
+        out.commands++; out.cmd_used["colvar_modifycvcs"]++;
+        if (rc != COLVARS_OK) { out.fail("usable", "modifycvcs_refused", "modifycvcs " + op.at("modify").as_str() + " on " + op.at("name").as_str() + ": " + e->last_error() + " " + res); break; }
+      }
       if (op.at("what").as_str() == "cv") { e->run_script({"cv", "colvar", op.at("name").as_str(), "set", "collect_gradient", "1"}, &res); out.commands++; }
     } else if (k == "run") {
       e->run((int)op.at("n").as_int(1), false);
